@@ -1,2 +1,4 @@
 import Driver.Ops
+import Driver.State
+import Driver.Typed
 import Driver.All
